@@ -609,3 +609,55 @@ func VH03c_queued() {
 	verif.Reach("queued-checked")
 	sock.Close()
 }
+
+// VH04c_inflight: the connection carrying a request dies while the write is
+// still in flight and the write reports success afterwards (the kernel had
+// taken the bytes). The request is re-sent to the other peer at once, the dead
+// connection is never handed anything again (neither the re-send nor later
+// requests), and the exchange completes with the surviving peer.
+func VH04c_inflight() {
+	lab := "C04/inflight"
+	sock := vp.New("req")
+	retry := verif.Duration("retry")
+	verif.Assume(verif.And(retry >= 1, retry <= time.Hour))
+	verif.Assert(sock.SetOption(mangos.OptionRetryTime, retry) == nil, lab+"/set-retry")
+	side := vt.Listen(sock, "a")
+	bad := side.Peer("bad")
+	bad.SendMode = vt.SendHold
+	verif.Assert(sock.Send([]byte{1, 'A'}) == nil, lab+"/send")
+	verif.Quiesce()
+	verif.Assert(bad.SendCalls == 1, lab+"/request-not-handed-to-the-only-connection")
+	good := side.Peer("good")
+	verif.Quiesce()
+	verif.Assert(len(good.Sent) == 0, lab+"/request-sent-twice-without-cause")
+	bad.Drop()
+	verif.Quiesce()
+	verif.Assert(len(good.Sent) == 1, lab+"/no-resend-after-connection-loss")
+	bad.Release() // the in-flight write returns success although the connection is gone
+	verif.Quiesce()
+	verif.Assert(len(good.Sent) == 1, lab+"/more-than-one-transmission-per-event")
+	if len(good.Sent) != 1 {
+		return
+	}
+	h := good.Sent[0].H
+	good.Deliver([]byte{h[0], h[1], h[2], h[3], 'R'})
+	var b []byte
+	var rerr error
+	g := verif.Go("recv", func() { b, rerr = sock.Recv() })
+	verif.Quiesce()
+	verif.Assert(g.Done() && rerr == nil && len(b) == 1 && b[0] == 'R', lab+"/reply-not-delivered")
+	// later requests go to the surviving peer only
+	for i := 0; i < 2; i++ {
+		var serr error
+		sg := verif.Go("send2", func() { serr = sock.Send([]byte{2, byte('B' + i)}) })
+		verif.Quiesce()
+		verif.Assert(sg.Done() && serr == nil, lab+"/send-blocks-although-a-healthy-peer-is-idle")
+		if !sg.Done() {
+			return
+		}
+	}
+	verif.Assert(bad.SendCalls == 1, lab+"/detached-connection-offered-traffic-again")
+	verif.Assert(len(good.Sent) == 3, lab+"/request-lost-although-accepted-after-the-failed-connection-was-detached")
+	verif.Reach("inflight-checked")
+	sock.Close()
+}
